@@ -132,7 +132,8 @@ def sec_reject(E, R, n):
         # accepted => the bytes are a valid encoding and re-encode to themselves
         E.check_eq(r.sec(), b, "accepted compressed SEC re-encodes to the same bytes")
     elif n == 65:
-        E.check(b[0] == 4 if E.symbolic else b[0] in (4, 6, 7), "uncompressed SEC with a wrong prefix byte is rejected")
+        E.check((b[0] == 4) | (b[0] == 6) | (b[0] == 7) if E.symbolic else b[0] in (4, 6, 7),
+                "uncompressed SEC with a wrong prefix byte is rejected")
     return "accepted"
 
 
